@@ -171,7 +171,9 @@ class Gen:
             return {"k": "opt", "key": "L", "dk": "const", "dv": [rng.choice(U.SCALARS) for _ in range(rng.choice([1, 2]))]}
         if r < 0.9:
             return {"k": "opt", "key": "L"}
-        return {"k": "list", "items": [self.expr(max(depth - 1, 0)) for _ in range(rng.choice([1, 2]))]}
+        # (values assigned to options by a Map must stay JSON: option dictionaries are JSON by definition and the
+        #  fingerprint serialises them)
+        return {"k": "list", "items": [self.opt(0) if rng.random() < 0.6 else self.const() for _ in range(rng.choice([1, 2]))]}
 
     def table(self, depth, n=None):
         rng = self.rng
